@@ -15,17 +15,17 @@ TEXT = ("Wakeup.tla models the cross-thread wake path one action per segment bet
         "schedule controller that parks each thread at the hook sites; every turn must arrive at the site the model predicts, "
         "and after each schedule every condition set before a wake() must be observed by a poll of its target.")
 NOTE = ("Bounds: 2 waking threads, targets main future and <= 2 spawned tasks, cross-thread queue capacity 1 (full-queue path "
-        "exercised), both drivers, block_on and external-loop mode. Sequentially consistent model: reorderings allowed by the "
+        "exercised), both drivers, block_on and external-loop mode, task polls that overflow a 2-entry submission queue (push_raw draining the CQ inside a poll). Sequentially consistent model: reorderings allowed by the "
         "chosen atomics orderings are NOT explored (needs a memory-model checker). Races inside a single hook-free segment are "
         "not steered. Lost wake-up on real code = targets not polled within 4 s after all wakers returned.")
 TECHNIQUE = "TLA+ model (TLC safety + liveness), schedule-controller replay of TLC interleavings on real threads"
 DESIGN_REF = "3/C03"
 
-MC_QUICK = ["mt", "tt", "mm", "mt_poll", "ext_mt", "ext_mt_poll"]
-MC_THOROUGH = MC_QUICK + ["t12", "t12_poll", "ext_t12"]
+MC_QUICK = ["mt", "tt", "mm", "mt_poll", "ext_mt", "ext_mt_poll", "mt_ov"]
+MC_THOROUGH = MC_QUICK + ["t12", "t12_poll", "ext_t12", "tt_ov"]
 CONTROLS = [("ext_old", "NeverStuck"), ("t12_old", "NeverStuck")]
 GEN_QUICK = [("mt", 40), ("tt", 30), ("mm", 30), ("t12", 60), ("mt_late", 40), ("mm_late", 30), ("mt_poll", 30),
-             ("t12_poll", 40), ("mt_poll_late", 30), ("ext_mm", 30), ("ext_mt", 40), ("ext_mt_poll", 30)]
+             ("t12_poll", 40), ("mt_poll_late", 30), ("ext_mm", 30), ("ext_mt", 40), ("ext_mt_poll", 30), ("mt_ov", 40), ("tt_ov", 40)]
 
 
 def run(run, tier, replay):
